@@ -1,18 +1,18 @@
 (* Round.v — how report figures are turned into text.
-   Model of  Scale::get_precision                      (tackler-core/src/config/items.rs),
-             the three formatting sites of BalanceReporter::txt_report
-                                                       (report/balance_reporter.rs),
-             amount_to_string in RegisterEntry::fmt_with_cfg (model/register.rs),
-   and of the two rust_decimal 1.37.1 operations they use, by contract (as read in the
-   library source and measured through the harness):
+   Model of  Scale::get_precision, Scale::format, Scale::with_decimals
+                                                       (tackler-core/src/config/items.rs),
+   used by the three formatting sites of BalanceReporter::txt_report
+   (report/balance_reporter.rs) and by amount_to_string in RegisterEntry::fmt_with_cfg
+   (model/register.rs), and of the rust_decimal 1.37.1 operations they use, by contract
+   (as read in the library source and measured through the harness):
      Decimal::round_dp_with_strategy(k, MidpointAwayFromZero)      -> dround_hafz
+     Decimal::to_string() (Display without precision)              -> dfmt
+   Also kept, for the value-level correspondence only (tackler does not call it any more):
      Display with a precision  (format!("{:.prec$}", d))           -> dfmt_prec
    Definitions only.
 
    The sign of zero is not modelled (Dec.v): a figure that rounds to zero is +0 in the
-   library (from_parts normalises) and prints without '-'.
-   Display with a precision PANICS when integer digits + '.' + decimals exceed 32 characters
-   (finding F18): dfmt_prec / shown_text return None in exactly that case. *)
+   library (from_parts normalises) and prints without '-'. *)
 From TkModel Require Import Base Dec Acct Balance.
 Local Open Scope Z_scope.
 
@@ -60,10 +60,9 @@ Fixpoint int_digits (fuel : nat) (n : Z) : str :=
   end.
 Definition nat_digits (n : Z) : str := int_digits (S (Z.to_nat (Z.log2 n))) n.
 
-(* Display with precision p (p <= 28; larger precisions are never requested): sign, integer
-   part, and - when p > 0 - '.' followed by exactly p decimals: the stored decimals TRUNCATED
-   to p, or padded with zeros. No rounding happens here.
-   (str.rs to_str_internal + Formatter::pad_integral.) *)
+(* The library's text of a decimal with p decimals: sign, integer part, and - when p > 0 -
+   '.' followed by exactly p decimals: the stored decimals TRUNCATED to p, or padded with
+   zeros. No rounding happens here. (str.rs to_str_internal + Formatter::pad_integral.) *)
 Definition dfmt_int (d : dec) : str := nat_digits (Z.abs (dm d) / pow10 (ds d)).
 
 Definition dfmt_raw (d : dec) (p : N) : str :=
@@ -75,70 +74,55 @@ Definition dfmt_raw (d : dec) (p : N) : str :=
   ++ dfmt_int d
   ++ (if (p =? 0)%N then [] else ch_dot :: fixed_digits frac (N.to_nat p)).
 
-(* to_str_internal assembles integer digits, '.' and decimals (not the sign) in an
-   ArrayString<MAX_STR_BUFFER_SIZE = 32>; a push beyond the capacity PANICS
-   (str.rs:64, CapacityError). Stored decimals never overflow it (at most 29 digits and
-   a point); zero padding to a precision above the stored scale can. *)
+(* Decimal::to_string / Display without precision: all stored decimals, no '.' at scale 0.
+   At most 29 digits and a point: never longer than the library's 32-character buffer. *)
+Definition dfmt (d : dec) : str := dfmt_raw d (ds d).
+
+(* Display WITH a precision, format!("{:.p$}", d): the same text built in an
+   ArrayString<MAX_STR_BUFFER_SIZE = 32> (integer digits, '.', decimals; not the sign); a
+   push beyond the capacity PANICS (str.rs:64, CapacityError) = None. This was how the
+   reports printed until finding F18 was repaired; only the value-level correspondence
+   uses it now. *)
 Definition fmt_capacity : nat := 32.
 Definition dfmt_room (d : dec) (p : N) : bool :=
   (length (dfmt_int d) + (if (p =? 0)%N then 0 else 1 + N.to_nat p) <=? fmt_capacity)%nat.
-
-(* None = the library panics *)
 Definition dfmt_prec (d : dec) (p : N) : option str :=
   if dfmt_room d p then Some (dfmt_raw d p) else None.
 
-(* Display without precision: all stored decimals (used for rates, not for report figures) *)
-Definition dfmt (d : dec) : option str := dfmt_prec d (ds d).
+(* Scale::with_decimals(d, prec) — d has at most prec decimals:
+     let mut txt = d.to_string();
+     if scale < prec { if scale == 0 { txt.push('.') }; txt.push_str(&"0".repeat(prec - scale)) } *)
+Definition with_decimals (d : dec) (prec : N) : str :=
+  let txt := dfmt d in
+  if (ds d <? prec)%N
+  then txt ++ (if (ds d =? 0)%N then [ch_dot] else []) ++ repeat 48%N (N.to_nat (prec - ds d))
+  else txt.
 
-(* --- what a report shows for the figure d ---
-   let prec = scale.get_precision(&d);
-   format!("{:.prec$}", d.round_dp_with_strategy(prec as u32, MidpointAwayFromZero)) *)
+(* --- what a report shows for the figure d: Scale::format ---
+   let prec = self.get_precision(d);
+   let rounded = d.round_dp_with_strategy(prec as u32, MidpointAwayFromZero);
+   Self::with_decimals(&rounded, prec) *)
 Definition shown_dec (sc : scale_cfg) (d : dec) : dec := dround_hafz d (precision sc d).
 Definition shown (sc : scale_cfg) (d : dec) : dec * N := (shown_dec sc d, precision sc d).
-Definition shown_text (sc : scale_cfg) (d : dec) : option str :=
-  dfmt_prec (shown_dec sc d) (precision sc d).
+Definition shown_text (sc : scale_cfg) (d : dec) : str :=
+  with_decimals (shown_dec sc d) (precision sc d).
 
-(* --- the amount columns of the text reports (widths, rulers, titles are not modelled).
-   A report is written row by row; a panic while formatting any figure aborts it (None).
-   (txt_report first formats every figure unrounded with `{:+.prec$}` to find the column
-   width: that panics exactly when the rounded figure does or has one digit less - the
-   report as a whole is None in the same cases.) --- *)
-Fixpoint omap {A B} (f : A -> option B) (l : list A) : option (list B) :=
-  match l with
-  | [] => Some []
-  | x :: l' => match f x, omap f l' with
-               | Some y, Some ys => Some (y :: ys)
-               | _, _ => None
-               end
-  end.
-
+(* --- the amount columns of the text reports (widths, rulers, titles are not modelled) --- *)
 (* balance / balance-group row: account sum, account tree sum, commodity, account *)
 Record bal_text_row : Type := mkBalTextRow {
   bt_own : str; bt_tree : str; bt_comm : str; bt_acc : acct }.
 
-Definition bal_text_row_of (sc : scale_cfg) (r : brow) : option bal_text_row :=
-  match shown_text sc (r_own r), shown_text sc (r_tree r) with
-  | Some o, Some t => Some (mkBalTextRow o t (r_comm r) (r_acc r))
-  | _, _ => None
-  end.
-
-Definition bal_text_rows (sc : scale_cfg) (rows : list brow) : option (list bal_text_row) :=
-  omap (bal_text_row_of sc) rows.
+Definition bal_text_rows (sc : scale_cfg) (rows : list brow) : list bal_text_row :=
+  map (fun r => mkBalTextRow (shown_text sc (r_own r)) (shown_text sc (r_tree r)) (r_comm r) (r_acc r)) rows.
 
 (* delta lines, sorted by commodity name (sorted_by_key, stable) *)
-Definition bal_text_deltas (sc : scale_cfg) (deltas : list (str * dec)) : option (list (str * str)) :=
-  omap (fun cd => option_map (fun t => (t, fst cd)) (shown_text sc (snd cd)))
-       (sort_by (fun a b => cmp_leb (str_cmp (fst a) (fst b))) deltas).
+Definition bal_text_deltas (sc : scale_cfg) (deltas : list (str * dec)) : list (str * str) :=
+  map (fun cd => (shown_text sc (snd cd), fst cd))
+      (sort_by (fun a b => cmp_leb (str_cmp (fst a) (fst b))) deltas).
 
-Definition bal_text (sc : scale_cfg) (rep : bal_report) : option (list bal_text_row * list (str * str)) :=
-  match bal_text_rows sc (b_rows rep), bal_text_deltas sc (b_deltas rep) with
-  | Some r, Some d => Some (r, d)
-  | _, _ => None
-  end.
+Definition bal_text (sc : scale_cfg) (rep : bal_report) : list bal_text_row * list (str * str) :=
+  (bal_text_rows sc (b_rows rep), bal_text_deltas sc (b_deltas rep)).
 
 (* register row: posting amount and running total, each through amount_to_string *)
-Definition reg_text_row (sc : scale_cfg) (amount total : dec) : option (str * str) :=
-  match shown_text sc amount, shown_text sc total with
-  | Some a, Some t => Some (a, t)
-  | _, _ => None
-  end.
+Definition reg_text_row (sc : scale_cfg) (amount total : dec) : str * str :=
+  (shown_text sc amount, shown_text sc total).
